@@ -425,7 +425,7 @@ theorem wstep_doLocalWrite (fuel : Nat) (ih : WM fuel) :
   obtain ⟨_, _, _, _, _, _, i7, i8, _⟩ := ih
   simp only [doLocalWrite]
   split
-  · exact i8 _ _ h
+  · exact i8 _ _ (by rw [discDone_fut]; exact h)
   · split
     · repeat' split
       all_goals exact suspend_other (by intro _ _ _ e; cases e)
